@@ -74,7 +74,9 @@ def captured_path(g, oid, depth=0):
       after_edge = False
     elif name in g["E"]:
       s1, s2 = g["E"][name]
-      ends = [s1, s2] if o == "+" else [inv(s1), inv(s2)]
+      # '+': from sid1 to sid2 as written; '-': the reverse walk, from sid2 to sid1, both inverted
+      # (so that 'O x e-' is the same path as 'O y e+' referenced as 'y-')
+      ends = [s1, s2] if o == "+" else [inv(s2), inv(s1)]
       if not walk:
         # first item: the walk starts at the side of the edge that is NOT continued by the next item
         nxt = seq[i + 1] if i + 1 < len(seq) else None
@@ -84,7 +86,7 @@ def captured_path(g, oid, depth=0):
             start, far = ends[1], ends[0]
           elif nxt[0] in g["E"]:
             n1, n2 = g["E"][nxt[0]]
-            nends = [n1, n2] if nxt[1] == "+" else [inv(n1), inv(n2)]
+            nends = [n1, n2] if nxt[1] == "+" else [inv(n2), inv(n1)]
             if ends[0] in nends and ends[1] not in nends:
               start, far = ends[1], ends[0]
         walk += [start, (name, o), far]
